@@ -114,13 +114,30 @@ func registries(m *modSpec, o *obsResult, pkgName string, withRand bool) string 
 		}
 		fmt.Fprintf(&b, "\t%q: func() interface{} { return new(%s) },\n", n.Local, n.Local)
 	}
-	b.WriteString("}\n\nvar VerifInterfaces = map[string]reflect.Type{\n")
+	// the unions of the analysed package under their name, those of other packages under <package>.<name>
+	type unionEntry struct {
+		key, qual string
+		n         namedObs
+	}
+	var unions []unionEntry
 	for _, n := range localNameds(o, "KdUnion") {
-		fmt.Fprintf(&b, "\t%q: reflect.TypeOf((*%s)(nil)).Elem(),\n", n.Local, n.Local)
+		unions = append(unions, unionEntry{n.Local, "", n})
+	}
+	seenImported := map[string]bool{}
+	for _, n := range o.Nameds {
+		if n.Kind == "KdUnion" && n.PkgPath != o.RootPkg && !strings.Contains(n.ID, "[") && !seenImported[n.ID] && exportedName(n.Local) {
+			seenImported[n.ID] = true
+			unions = append(unions, unionEntry{n.PkgName + "." + n.Local, n.PkgName + ".", n})
+		}
+	}
+	b.WriteString("}\n\nvar VerifInterfaces = map[string]reflect.Type{\n")
+	for _, u := range unions {
+		fmt.Fprintf(&b, "\t%q: reflect.TypeOf((*%s%s)(nil)).Elem(),\n", u.key, u.qual, u.n.Local)
 	}
 	b.WriteString("}\n\nvar VerifUnions = map[string][]func() interface{}{\n")
-	for _, n := range localNameds(o, "KdUnion") {
-		fmt.Fprintf(&b, "\t%q: {\n", n.Local)
+	for _, u := range unions {
+		n := u.n
+		fmt.Fprintf(&b, "\t%q: {\n", u.key)
 		// the members the analysis found, then the implementers go/types finds that it did not list: a Go
 		// program can hold them in the union
 		mems := append([]string{}, n.Members...)
@@ -134,7 +151,10 @@ func registries(m *modSpec, o *obsResult, pkgName string, withRand bool) string 
 			}
 		}
 		for _, mem := range mems {
-			fmt.Fprintf(&b, "\t\tfunc() interface{} { var v %s; return v },\n", mem)
+			if u.qual != "" && !exportedName(mem) {
+				continue // a member the analysed package can not name
+			}
+			fmt.Fprintf(&b, "\t\tfunc() interface{} { var v %s%s; return v },\n", u.qual, mem)
 		}
 		b.WriteString("\t},\n")
 	}
@@ -318,3 +338,5 @@ func runTestBinaryX(m *modSpec, o *obsResult, seed int64, samples int, withRand 
 	os.Remove(bin)
 	return res
 }
+
+func exportedName(s string) bool { return s != "" && s[0] >= 'A' && s[0] <= 'Z' }
